@@ -265,15 +265,27 @@ def run_history(case, with_final=True):
             final.append([n.sep, n.path_name, n.depth])
     obs = {"trace": trace, "final": final}
     if "lookups" in case:
-        from bigtree.tree.search import find_full_path
+        # every way of looking an absolute path name up: find_full_path, and find_relative_path(s), which hand a
+        # path with a leading separator to find_full_path (search.py find_relative_paths) -- same model function
+        from bigtree.tree.search import find_full_path, find_relative_path, find_relative_paths
         idx = {id(n): i for i, n in enumerate(nodes)}
+
+        def _rels(st, pth):
+            r = find_relative_paths(st, pth)
+            if len(r) != 1:
+                raise ValueError("not exactly one result")
+            return r[0]
         look = []
-        for (start, target) in case["lookups"]:
-            try:
-                r = find_full_path(nodes[start], nodes[target].path_name)
-                look.append(["ret", None if r is None else idx[id(r)]])
-            except Exception:
-                look.append(["raise"])
+        for fn in (find_full_path, find_relative_path, _rels):
+            for (start, target) in case["lookups"]:
+                try:
+                    # the relative-path functions only for the property's situation (start and target in one
+                    # tree: the path is then absolute for the start node's separator too)
+                    f = fn if nodes[start].root is nodes[target].root else find_full_path
+                    r = f(nodes[start], nodes[target].path_name)
+                    look.append(["ret", None if r is None else idx[id(r)]])
+                except Exception:
+                    look.append(["raise"])
         obs["lookups"] = look
     if case.get("battery"):
         obs["battery"] = _battery(case, nodes)
@@ -405,7 +417,7 @@ def emit(prop, case, obs):
     if prop == "C03":
         def lk(r):
             return "None" if r[0] == "raise" else f"(Some {copt(r[1], str)})"
-        looks = clist(f"({s}, {t}, {lk(r)})" for (s, t), r in zip(case.get("lookups", []), obs["lookups"]))
+        looks = clist(f"({s}, {t}, {lk(r)})" for (s, t), r in zip(list(case.get("lookups", [])) * 3, obs["lookups"]))
         return f"C3 ({fc}) ({looks})"
     if prop == "C20":
         off = clist(cpair(_clinks(l), str(code)) for l, code in obs["off"])
@@ -421,6 +433,7 @@ NAME_POOLS = {
     "repeated": ["a", "b", "a", "c", "b", "a", "c", "b", "a", "c"],
     "affix": ["a", "xa", "ab", "b", "bc", "a", "abc", "b", "c", "xa"],
     "special": ["a.b", "(", "+", "a b", "a'", "0", "a1", "a", "10", "-"],
+    "dots": ["*", ".", "..", "a", "*", "b", "..", ".", "c", "*"],     # names that relative-path syntax gives a meaning
 }
 SEPS = ["/", "\\", "-", ".", "|"]
 MULTI_SEPS = ["->", "::", "=>", "//", "-|-"]   # separators of more than one character (C03)
